@@ -55,8 +55,13 @@ def eval_pred(e, var, cat):
     if isinstance(e, ast.Call) and isinstance(e.func, ast.Name):
         if e.func.id == 'hasattr' and len(e.args) == 2 and isinstance(e.args[0], ast.Name) and \
                 e.args[0].id == var and isinstance(e.args[1], ast.Constant):
-            if e.args[1].value in ('isf', 'ppf', 'cdf', 'pdf', 'rvs'):
+            if e.args[1].value == 'isf':
                 return CATEGORIES[cat]['isf']
+            if e.args[1].value in ('ppf', 'cdf', 'pdf', 'rvs', 'sf', 'logpdf'):
+                # a declared distribution is only required to have `isf` (add_parameter's
+                # contract): other methods may or may not exist on a free entry; numbers and
+                # strings have none of them
+                return None if CATEGORIES[cat]['isf'] else False
             return None
         if e.func.id == 'isinstance' and len(e.args) == 2 and \
                 isinstance(e.args[0], ast.Name) and e.args[0].id == var:
@@ -213,6 +218,18 @@ def rule_A1(ctx, rid='A1'):
                 for cat in cats:
                     handled.setdefault(cat, []).append((bool(stores), bool(incs), st))
                 counter_incs += len(incs)
+                # the branch that consumes a coordinate must be taken by EVERY free entry: its
+                # condition may only rely on what a declared distribution is required to have
+                if incs and 'free' in cats:
+                    und = [t for t, pol in conds if eval_pred(t, dvar, 'free') is None]
+                    ctx.ob(rid, '%s:free-branch-decided' % qn, not und, f.where(st),
+                           'every free entry takes the branch that consumes its coordinate'
+                           if not und else
+                           'whether a free entry takes the branch that consumes its coordinate '
+                           'depends on `%s`, which a declared distribution (only required to '
+                           'have `isf`) may or may not satisfy: such an entry is counted by '
+                           'dimensionality() but skipped here, shifting every later parameter'
+                           % unparse(und[0])[:50])
         # free entries: stored and counter advanced; others: counter not advanced
         for cat in CATEGORIES:
             hs = handled.get(cat, [])
